@@ -570,7 +570,12 @@ def strategies(ctx):
         'keyform': st.sampled_from(['Key', 'HDKey', 'hex', 'bytes']),
         'zform': st.sampled_from(['bytes', 'hex']),
     })
-    ks = st.one_of(st.integers(1, n - 1), st.integers(1, 50), st.integers(1, 50).map(lambda v: n - v))
+    # nonces whose r has a top byte that format sniffing could mistake for something else: 0x30 (DER sequence tag),
+    # 0x02/0x03/0x04 (public key prefixes), 0x00 (leading zero) - matters for the 64-byte compact form
+    special_ks = [102, 160, 227, 245, 580, 848, 153, 246, 886, 1158, 1417, 1436, 441, 908, 1133, 1169, 1941, 2453,
+                  133, 275, 305, 564, 574, 836, 45, 145, 311, 336, 816, 1107]
+    ks = st.one_of(st.integers(1, n - 1), st.integers(1, 50), st.integers(1, 50).map(lambda v: n - v),
+                   st.sampled_from(special_ks))
     verify = st.builds(
         build_verify_case, st.sampled_from(MODES), gen.secrets(), gen.digests(), ks, st.integers(0, 1 << 30),
         st.integers(0, (1 << 256) - 1), st.integers(0, 255), st.sampled_from(DER_HOWS), st.booleans(),
